@@ -347,6 +347,8 @@ def rule_R6(src):
                 changed = True
                 break
             comps = _split_zip(expr)
+            if any(re.match(r'&\s*mut\b', c_) or c_.endswith('.iter_mut()') for c_ in comps):
+                raise Undecided('R6: loop over mutable references (`&mut v` / `.iter_mut()`) is outside the supported subset')
             first = comps[0]
             simple_path = re.fullmatch(r'[A-Za-z_][A-Za-z0-9_]*(?:\.[A-Za-z_0-9]+)*', first) is not None
             call_src = len(comps) == 1 and re.fullmatch(r'[A-Za-z_][A-Za-z0-9_]*(?:\.[A-Za-z_0-9]+)*\.(squeeze|as_slice|as_ref)\(\)', first) is not None
@@ -428,7 +430,7 @@ def rule_R11b(src):
             continue
         o = src.rfind('.map(', m.start(), m.end()) + 4
         c = rl.match_bracket(src, o, mask)
-        tail = re.match(r'\s*\.collect(?:::<Vec<_>>)?\(\)', src[c + 1:])
+        tail = re.match(r'\s*\.(?:collect(?:::<Vec<_>>)?|collect_vec)\(\)', src[c + 1:])
         if not tail:
             continue
         body_expr = src[m.end():c].strip()
@@ -479,7 +481,7 @@ GLOBAL_RULES = [
     ('R5a', 'array pattern `let [a,b,..] = e;` -> indexed lets', rule_R5a),
     ('R5b', 'destructuring assignment `(a, b) = e;` -> temporary + field assignments', rule_R5b),
     ('R11', '(a..b).map(|i| E).collect() -> push loop', rule_R11),
-    ('R11b', 'v.iter().map(|x| BODY).collect() -> push loop', rule_R11b),
+    ('R11b', 'v.iter().map(|x| BODY).collect() / .collect_vec() -> push loop', rule_R11b),
     ('R11d', 'consumer.many((a..b).map(|i| E)) -> for i in a..b { consumer.one(E) }', rule_R11d),
     ('R6', 'for-loops over slices (&v, .iter(), .enumerate(), .zip(), (a..b).rev()) -> index loops with element lets', rule_R6),
     ('R2', 'branch_hint() removed (empty asm!, no semantics)', _regex_rule(r'\bbranch_hint\(\)\s*;', '')),
@@ -1125,9 +1127,10 @@ def classify_diag(d):
 
 def classify_run(r):
     """Classify all diagnostics of one run using the run context: when Verus reached the verification phase
-    (a `verified` count exists and no VIR error was met) every error-level diagnostic is a refused obligation."""
+    (a non-empty `verified`/`errors` count exists and no VIR error was met) every error-level diagnostic is a refused obligation."""
     vr = r.get('vr') or {}
-    reached = ('verified' in vr) and not vr.get('encountered-vir-error')
+    # a front-end (parse / type) failure also prints a verification summary, but with verified == 0 and errors == 0
+    reached = ('verified' in vr) and not vr.get('encountered-vir-error') and (vr.get('verified', 0) > 0 or vr.get('errors', 0) > 0)
     out = []
     for d in r['diags']:
         k = classify_diag(d)
